@@ -104,7 +104,7 @@ def oracle_c01(g, ds, out, originals):
                 wk = resolve_text(v, local, al)
                 if gv is None or gv[0] != "n" or key_of_nid(gv[1], ns) != wk: fails.append(("C01/attribute-target", "%s %s: %r, expected %r" % (where, k, gv, wk)))
             elif k in ("IsAbstract", "Symmetric"):
-                if gv is None or gv[0] != "b" or (gv[1] == "true") != (v == "true"): fails.append(("C01/attribute-flag", "%s %s=%s: %r" % (where, k, v, gv)))
+                if gv is None or gv[0] != "b" or (gv[1] == "true") != (v in ("true", "1")): fails.append(("C01/attribute-flag", "%s %s=%s: %r" % (where, k, v, gv)))
             elif k in INT_ATTRS:
                 if gv is None or gv[0] != "i" or int(gv[1]) != int(v):
                     bits = INT_ATTRS[k]; wrapped = gv is not None and gv[0] == "i" and (int(gv[1]) - int(v)) % (2 ** bits) == 0
@@ -418,6 +418,9 @@ def run(ctx, prop):
                 ctx.record(dict(case=ci, malformed=kind), True, ["malformed=" + kind])
     finally:
         shutil.rmtree(work, ignore_errors=True)
+    if prop == "C03":
+        try: dict_stream(ctx, work + "_dict", rng)
+        finally: shutil.rmtree(work + "_dict", ignore_errors=True)
     if prop in ("C01", "C02", "C04"):
         try: big_document(ctx, prop, work + "_big", random.Random(ctx.seed * 7919 + 17))
         finally: shutil.rmtree(work + "_big", ignore_errors=True)
@@ -455,10 +458,88 @@ RULE = ("document sets are serialisations of random abstract graphs (1-3 namespa
         "when several files with permuted URI tables, values or a caller list are involved.")
 
 
+def dict_graph_fails(work, files, items):
+    """UAGraph.from_file_list / from_path with the caller's table given as a dictionary whose entries were inserted in the order of `items`:
+    every entry keeps its index, index 0 is the OPC UA namespace, and the identifiers denote what a parse with the equivalent list denotes"""
+    from opcua_tools.ua_graph import UAGraph
+    d = {}
+    for k, u in items: d[int(k)] = u
+    want_list = [d.get(i, "None") for i in range(max(d) + 1)]
+    shutil.rmtree(work, ignore_errors=True); os.makedirs(work)
+    paths = []
+    for n, t in files:
+        pth = os.path.join(work, n); open(pth, "w", encoding="utf-8").write(t); paths.append(pth)
+    ref, _ = parsecmp.impl_parse(work + "_ref", files, want_list)
+    shutil.rmtree(work + "_ref", ignore_errors=True)
+    fails = []
+    try: UAGraph.from_file_list(list(paths))
+    except BaseException: return []              # not a document set a graph can be built from at all (C11's subject)
+    for how, build in (("from_file_list", lambda: UAGraph.from_file_list(list(paths), namespace_dict=dict(d))), ("from_path", lambda: UAGraph.from_path(work, namespace_dict=dict(d)))):
+        try: G = build()
+        except BaseException as e:
+            if ref[0] == "ok": fails.append(("C03/caller-dict", "%s raised %s although parse_xml_files with the list %r succeeds" % (how, type(e).__name__, want_list)))
+            continue
+        ns = list(G.namespaces)
+        wrong = [(k, u, ns[k] if k < len(ns) else None) for k, u in sorted(d.items()) if k >= len(ns) or ns[k] != u]
+        if wrong: fails.append(("C03/caller-dict", "%s: table %r (entries inserted in the order %r) gives namespaces %r" % (how, d, [k for k, _ in items], ns)))
+        elif ref[0] == "ok" and ns != ref[1][0]: fails.append(("C03/caller-dict", "%s: namespaces %r, parse_xml_files with the equivalent list gives %r" % (how, ns, ref[1][0])))
+    return fails
+
+def dict_stream(ctx, work, rng):
+    """the caller's table as a dictionary (UAGraph._get_namespace_list): the list it becomes, against the model, and graphs built with it"""
+    from opcua_tools.ua_graph import UAGraph
+    pool = ["urn:test:ns0", "urn:test:ns1", "http://example.org/UA/2/", "urn:unused", "urn:other"]
+    dicts = []
+    # dense tables inserted in descending and in rotated order first, then tables with gaps, then random ones
+    dicts += [[(2, pool[1]), (1, pool[0]), (0, UA)], [(1, pool[0]), (2, pool[1]), (0, UA)], [(0, UA), (2, pool[1]), (1, pool[0])], [(3, pool[2]), (0, UA), (7, pool[0])], [(0, UA)], [(5, pool[3])]]
+    for _ in range(40 if ctx.quick() else 600):
+        keys = rng.sample(range(0, 9), rng.randint(1, 6))
+        if rng.random() < 0.5: keys = list(range(len(keys)))          # dense
+        rng.shuffle(keys)
+        dicts.append([(k, UA if k == 0 and rng.random() < 0.8 else rng.choice(pool)) for k in keys])
+    reqs = []; outs = []
+    for items in dicts:
+        d = {}
+        for k, u in items: d[k] = u
+        try: out = ["ok", list(UAGraph._get_namespace_list(d))]
+        except BaseException as e: out = ["err", type(e).__name__]
+        want = [d.get(i, "None") for i in range(max(d) + 1)]
+        reqs.append([Sym("ns_list_of_dict"), [[k, u] for k, u in items]]); outs.append((items, out))
+        ctx.record(dict(kind="caller-dict", items=items), len(items) > 1 and [k for k, _ in items] != sorted(k for k, _ in items), ["caller-dict", "dense" if sorted(d) == list(range(len(d))) else "gaps"])
+        if out != ["ok", want]: ctx.fail("C03/caller-dict", dict(kind="caller-dict-list", items=[list(x) for x in items]), "_get_namespace_list(%r) = %r, the table says %r" % (d, out, want))
+    ans = vlib.run_model(reqs)
+    for (items, out), a in zip(outs, ans):
+        mo = ["ok", vlib.untext(a)]
+        if out != mo: ctx.disagree("caller-dict", dict(items=items), out, mo)
+    # graphs built with such tables
+    for gi in range(3 if ctx.quick() else 25):
+        g = nsgen.gen_graph(rng, n_ns=rng.randint(1, 3), n_nodes=rng.randint(3, 6), hostile=False, dangling=False, value_gen=value_gen)
+        ds = nsgen.serialise(g, rng, value_xml=value_xml, aliases=rng.random() < 0.5)
+        files, _ = render_set(ds, rng)
+        uris = [UA] + [u for u in g.uris if any(k[0] == u for k in g.order)]
+        for variant in range(3):
+            keys = list(range(len(uris)))
+            if variant == 1: keys = [k * 2 for k in keys]                 # gaps
+            items = list(zip(keys, uris))
+            if variant == 2: items = items[1:] + items[:1]               # dense, the OPC UA entry inserted last
+            else: items = items[::-1]                                     # descending insertion order
+            ctx.record(dict(kind="caller-dict-graph", case=gi, items=items), True, ["caller-dict", "graph"])
+            for sig, detail in dict_graph_fails(work, files, items): ctx.fail(sig, dict(kind="caller-dict-graph", files=files, items=[list(x) for x in items]), detail)
+
 def oracle_case(case):
     """replay of a stored document set"""
     work = os.path.join(vlib.WORK, "replay_%d" % os.getpid())
     try:
+        if case.get("kind") == "caller-dict-list":
+            from opcua_tools.ua_graph import UAGraph
+            d = {}
+            for k, u in case["items"]: d[int(k)] = u
+            want = [d.get(i, "None") for i in range(max(d) + 1)]
+            try: out = list(UAGraph._get_namespace_list(d))
+            except BaseException as e: out = type(e).__name__
+            return [] if out == want else [("C03/caller-dict", "_get_namespace_list(%r) = %r" % (d, out))]
+        if case.get("kind") == "caller-dict-graph":
+            return dict_graph_fails(work, [tuple(f) for f in case["files"]], [tuple(x) for x in case["items"]])
         if case.get("kind") == "big":
             c = _Collect(); prop = case.get("prop", "C01")
             for pr in ("C01", "C02"): big_document(c, pr, work, None, case["nodes"], case["salt"])
